@@ -25,8 +25,93 @@ pub fn tracing_relation(wm: &WMsk, id: &[Vec<u8>]) -> Result<(), String> {
 
 use super::hist::*;
 use super::Meta;
-use crate::report::{CheckResult, Collector};
+use crate::ccx::*;
+use crate::report::{CheckResult, Collector, Fail};
+use crate::runner::run_cases;
+use crate::wire::WUsk;
 use crate::Ctx;
+use proptest::prelude::*;
+use serde::{Deserialize, Serialize};
+
+/// Many keys issued by a small master key: the user set crosses the one-byte LEB128 count (128)
+/// while the rest of the master key stays short.
+#[derive(Clone, Debug, Serialize, Deserialize, Hash, PartialEq, Eq)]
+pub struct ManyUsers {
+    pub users: u16,
+    /// attributes of the single dimension (0 = empty structure, keys for '*')
+    pub attrs: u8,
+    pub hybrid: bool,
+    /// user count at which the first round-trip of the master key is made
+    pub first_roundtrip: u16,
+}
+
+fn many_strategy(thorough: bool) -> impl Strategy<Value = ManyUsers> {
+    let hi = if thorough { 700u16 } else { 300 };
+    (prop_oneof![3 => 126u16..140, 2 => 1u16..hi], 0u8..3, any::<bool>(), prop_oneof![1 => 126u16..131, 1 => 1u16..200]).prop_map(|(users, attrs, hybrid, first_roundtrip)| ManyUsers { users, attrs, hybrid, first_roundtrip })
+}
+
+pub fn check_many(case: &ManyUsers, col: &Collector) -> CheckResult {
+    let cc = Covercrypt::default();
+    let e = |e: Error| Fail::new("fixture-failed", short_err(&e));
+    let (mut msk, _) = cc.setup().map_err(e)?;
+    if case.attrs > 0 {
+        msk.access_structure.add_anarchy("D".into()).map_err(e)?;
+        for i in 0..case.attrs {
+            msk.access_structure.add_attribute(qa("D", &format!("a{i}")), hint(case.hybrid && i == 0), None).map_err(e)?;
+        }
+    }
+    cc.update_msk(&mut msk).map_err(e)?;
+    let ap = if case.attrs > 0 { AccessPolicy::parse("D::a0").unwrap() } else { AccessPolicy::Broadcast };
+    let mut issued: Vec<(Vec<Vec<u8>>, UserSecretKey)> = vec![];
+    let verify = |msk: &MasterSecretKey, issued: &[(Vec<Vec<u8>>, UserSecretKey)], when: &str| -> Result<MasterSecretKey, Fail> {
+        let bytes = ser(msk)?;
+        let restored: MasterSecretKey = de(&bytes).map_err(|e| Fail::new("msk-roundtrip-failed-with-many-users", format!("{when}: the master key ({} bytes, {} issued keys) cannot be read back: {e}", bytes.len(), issued.len())))?;
+        let wm = WMsk::decode(&ser(&restored)?).map_err(|e| Fail::new("codec-cannot-decode-msk", e))?;
+        if wm.users.len() != issued.len() {
+            return Err(Fail::new("user-count-after-roundtrip", format!("{when}: {} identifiers registered after the round-trip, {} keys issued", wm.users.len(), issued.len())));
+        }
+        let set: std::collections::BTreeSet<&Vec<Vec<u8>>> = wm.users.iter().collect();
+        if set.len() != wm.users.len() {
+            return Err(Fail::new("duplicate-identifier", format!("{when}: registered identifiers are not pairwise distinct")));
+        }
+        for (k, (id, _)) in issued.iter().enumerate() {
+            if !set.contains(id) {
+                return Err(Fail::new("identifier-lost-in-roundtrip", format!("{when}: identifier of key #{k} is not registered after the round-trip")));
+            }
+        }
+        if let Some((id, _)) = issued.last() {
+            tracing_relation(&wm, id).map_err(|e| Fail::new("tracing-relation-violated", format!("{when}: last key: {e}")))?;
+        }
+        Ok(restored)
+    };
+    let mut roundtrips = 0;
+    for n in 1..=case.users {
+        let usk = cc.generate_user_secret_key(&mut msk, &ap).map_err(|e| Fail::new("keygen-failed", format!("key #{n}: {}", short_err(&e))))?;
+        let wu = WUsk::decode(&ser(&usk)?).map_err(|e| Fail::new("codec-cannot-decode-usk", e))?;
+        issued.push((wu.id, usk));
+        if n == case.first_roundtrip || n == 127 || n == 128 || n == 129 || n == case.users {
+            // continue with the restored key half of the time: the restored object must be as good
+            let restored = verify(&msk, &issued, &format!("after {n} keys"))?;
+            roundtrips += 1;
+            if n % 2 == 0 {
+                msk = restored;
+            }
+        }
+    }
+    // the first, the 128th and the last key are still refreshable by the (restored) master key
+    for k in [0usize, 127, issued.len() - 1] {
+        if let Some((_, usk)) = issued.get(k) {
+            let mut u = usk.clone();
+            cc.refresh_usk(&mut msk, &mut u, true).map_err(|e| Fail::new("issued-key-refused", format!("key #{k} of {} refused by refresh: {}", issued.len(), short_err(&e))))?;
+        }
+    }
+    col.class_n("many-users:roundtrips", roundtrips);
+    if case.users >= 128 {
+        col.class("many-users:>=128");
+        col.nontrivial(&("many", case));
+    }
+    Ok(())
+}
 
 fn profile(thorough: bool) -> Profile {
     Profile {
@@ -70,17 +155,26 @@ fn hc(thorough: bool) -> HistCheck<'static> {
 pub fn run(ctx: &Ctx, col: &Collector) -> Meta {
     let h = hc(ctx.thorough);
     run_hist(ctx, col, &h, ctx.n(5000, 40_000));
+    let thorough = ctx.thorough;
+    run_cases(&ctx.run_cfg(ctx.n(48, 600), 171), "many-users", || many_strategy(thorough), col, check_many);
+    if col.class_count("many-users:>=128") == 0 && !col.stopped() {
+        col.note("generator unhealthy: class many-users:>=128 empty");
+    }
     if col.class_count("tracing-relation-checked") == 0 && !col.stopped() {
         col.note("generator unhealthy: tracing relation never evaluated");
     }
     Meta {
         level: "exploration",
-        rule: "random histories of key generation, refresh (both flags, after rekeys), master-key / user-key round-trips, and refreshes with older snapshots of the master key; after every generation, refresh and user-key round-trip, from the independently decoded master key, user key and public key: the key's marker vector is a member of the master key's user set, all registered vectors are pairwise distinct and as many as issued keys, sum(marker_i * tracer_i) equals the master binding scalar (recomputed with the curve library directly), every public tracer equals tracer_i * G, and the tracing points embedded in the user key and in the latest public key equal the public tracers; a key issued after a snapshot must be refused by that snapshot. Non-trivial = history in which the relation was checked after a refresh or round-trip, or a stale-snapshot refusal occurred; distinct by the whole case".into(),
+        rule: "random histories of key generation, refresh (both flags, after rekeys), master-key / user-key round-trips, and refreshes with older snapshots of the master key; after every generation, refresh and user-key round-trip, from the independently decoded master key, user key and public key: the key's marker vector is a member of the master key's user set, all registered vectors are pairwise distinct and as many as issued keys, sum(marker_i * tracer_i) equals the master binding scalar (recomputed with the curve library directly), every public tracer equals tracer_i * G, and the tracing points embedded in the user key and in the latest public key equal the public tracers; a key issued after a snapshot must be refused by that snapshot. Second kind: a small master key (empty structure or one dimension of 1-2 attributes) issues 1-300 keys (weighted to 126-139, where the user count needs a second LEB128 byte), with master-key round-trips at 127, 128, 129, a generated count and the end: the key must read back, register exactly the issued identifiers, keep the relation, and still refresh the first, 128th and last key. Non-trivial = history in which the relation was checked after a refresh or round-trip, or a stale-snapshot refusal occurred; distinct by the whole case".into(),
         exhaustive: false,
         assumptions: vec!["scalar / point arithmetic is done with curve25519-dalek / p256 directly on the serialized bytes".into()],
     }
 }
 
-pub fn replay(_kind: &str, case: &serde_json::Value, col: &Collector) -> CheckResult {
+pub fn replay(kind: &str, case: &serde_json::Value, col: &Collector) -> CheckResult {
+    if kind == "many-users" {
+        let c: ManyUsers = serde_json::from_value(case.clone()).map_err(|e| Fail::new("replay-format", e.to_string()))?;
+        return check_many(&c, col);
+    }
     replay_hist(&hc(false), case, col)
 }
